@@ -1672,6 +1672,8 @@ func (c *Ctx) specType(e Expr, tenv map[string]types.Type, pkg *types.Package) t
 		return c.specType(x.X, tenv, pkg)
 	case *EOld:
 		return c.specType(x.X, tenv, pkg)
+	case *EBefore:
+		return c.specType(x.X, tenv, pkg)
 	}
 	return nil
 }
@@ -1816,6 +1818,7 @@ func (fr *Frame) loopWrites(li *loopInfo) *WS {
 
 func (fr *Frame) havocLoop(li *loopInfo, cur *State, R string) *State {
 	c := fr.c
+	li.preSt = cur.clone()
 	ws := fr.loopWrites(li)
 	st := cur.clone()
 	if ws.all {
@@ -1949,12 +1952,17 @@ func (fr *Frame) loopEnv(li *loopInfo, st *State, phiVals map[*ssa.Phi]Val, R st
 	if p := pkgOf(fr.fn); p != nil {
 		pkg = p
 	}
-	return &Env{c: c, st: st, old: fr.entrySt, vars: vars, pkg: pkg, guard: R}
+	bf := li.preSt
+	if bf == nil {
+		bf = st // establishing the invariant: the loop is being entered in this very state
+	}
+	return &Env{c: c, st: st, old: fr.entrySt, vars: vars, pkg: pkg, guard: R, before: bf}
 }
 
 // bindLocals makes source-level local variable names available to loop invariants.
 func (fr *Frame) bindLocals(vars map[string]Val, st *State, li *loopInfo) {
 	c := fr.c
+	bound := map[string]*ssa.BasicBlock{} // block of the debug reference a name is currently bound from
 	if li == nil && fr.curBlock != nil {
 		// outside loops: the most recent reference to the name in a block dominating the current one
 		for name, recs := range fr.refs {
@@ -2023,7 +2031,19 @@ func (fr *Frame) bindLocals(vars map[string]Val, st *State, li *loopInfo) {
 				if _, isPhi := t.X.(*ssa.Phi); isPhi {
 					continue // phis are bound through phiVals
 				}
-				if _, dup := vars[name]; !dup {
+				_, dup := vars[name]
+				// a later assignment to the same variable that dominates the loop head supersedes an earlier one
+				// (e.g. `var m map[K]V` followed by `m = make(...)`)
+				if dup && li != nil && bound[name] != nil && t.Block() != nil &&
+					(t.Block() == li.header || t.Block().Dominates(li.header)) && !li.blocks[t.Block()] &&
+					(bound[name] == t.Block() || bound[name].Dominates(t.Block())) {
+					if vi, ok := t.X.(ssa.Instruction); !ok || !li.blocks[vi.Block()] {
+						vars[name] = v
+						bound[name] = t.Block()
+					}
+					continue
+				}
+				if !dup {
 					// only bind values defined outside the loop (loop-invariant) or unique definitions
 					if li != nil {
 						if vi, ok := t.X.(ssa.Instruction); ok && li.blocks[vi.Block()] {
@@ -2031,6 +2051,7 @@ func (fr *Frame) bindLocals(vars map[string]Val, st *State, li *loopInfo) {
 						}
 					}
 					vars[name] = v
+					bound[name] = t.Block()
 				}
 			}
 		}
